@@ -186,6 +186,40 @@ def main(replay=None):
             names = [n for n, d, t in visible] + [b"?", b"???"]
             for nm in rng.sample(names, min(len(names), 2)):
                 add("free-sections", fb, nm, expected(props, visible, nm))
+        # bytes behind the data area (checksum trailer, padding, garbage): theorems C17_trailing_bytes_ignored / _reads say that the
+        # reader reports what it reports without them - for a packed archive exactly the stored content
+        for i in range(400 if thorough else 80):
+            props, entries = rand_archive(rng)
+            fb = pack(props, entries)
+            k = rng.choice([1, 1, 2, 20, 21, 21, 22, 64, 300])
+            style = rng.random()
+            if style < 0.4:
+                tail = bytes(rng.randint(0, 255) for _ in range(k))
+            elif style < 0.7:
+                tail = b"\0" + bytes(rng.randint(0, 255) for _ in range(k - 1))     # the usual trailer: NUL + SHA-1
+            else:
+                tail = bytes([rng.choice([0, 63, 255])]) * k
+            names = [n for n, d, t in entries] + [b"missing.sqf"]
+            for nm in rng.sample(names, min(len(names), 2)):
+                add("trailer", fb + tail, nm, expected(props, entries, nm))
+        # corruption confined to the data area (theorem C17_data_corruption_keeps_table): properties, names, sizes and positions are
+        # those of the undamaged archive, every entry reads back as the bytes that now stand at its place
+        for i in range(300 if thorough else 60):
+            props, entries = rand_archive(rng)
+            total = sum(len(d) for n, d, t in entries)
+            if total == 0:
+                continue
+            fb = pack(props, entries)
+            data = bytearray(fb[len(fb) - total:])
+            for _ in range(rng.choice([1, 1, 2, 5, total])):
+                data[rng.randrange(total)] = rng.randint(0, 255)
+            fb2 = fb[:len(fb) - total] + bytes(data)
+            ents2, off = [], 0
+            for n, d, t in entries:
+                ents2.append((n, bytes(data[off:off + len(d)]), t)); off += len(d)
+            names = [n for n, d, t in entries]
+            for nm in rng.sample(names, min(len(names), 2)):
+                add("corrupt-data", fb2, nm, expected(props, ents2, nm))
         # every truncation point and every single-byte corruption of small archives
         nsmall = 40 if thorough else 6
         for i in range(nsmall):
@@ -316,7 +350,7 @@ def main(replay=None):
     run.cov["distinct_nontrivial"] = len([d for d in distinct if d[2]])
     run.cov["rule"] = ("archives from an independent Python packer (random props/entries, names with backslashes, empty and binary "
                        "content, duplicate names, names that differ only in letter case), every truncation point, single-byte and u32-field corruptions of small archives, "
-                       "random bytes, an absent path; a case is non-trivial when the model accepts the archive (open = Some); "
+                       "bytes appended behind the data area, corruption confined to the data area, random bytes, an absent path; a case is non-trivial when the model accepts the archive (open = Some); "
                        "distinct by (file bytes, name)")
     run.cov["input_distribution"] = kinds
     run.cov["samples"] = samples
